@@ -72,13 +72,86 @@ def search(chk, r, n, max_pto):
             chk.extra["search_exceptions"][k] = chk.extra["search_exceptions"].get(k, 0) + 1
 
 
+def search_pos_kernels(chk, r, n):
+    """kernel-list level positivity partition on the real Combiner (no convolution needed):
+    for every kernel the weights of the six restricted runs sum to the unrestricted weights"""
+    import yadism
+    from yadism.coefficient_functions import Combiner
+
+    for t, o in corr_weights.combiner_configs(r, n, processes=["EM", "NC"]):
+        lists = {}
+        try:
+            for pos in [None] + list(cards.QUARKS):
+                o2 = dict(o, NCPositivityCharge=pos)
+                runner = yadism.Runner(t, o2)
+                for name, obj in runner.observables.items():
+                    for i, esf in enumerate(obj.elements[:2]):
+                        lists.setdefault((name, i), {})[pos] = corr_weights.canon_py_kernels([k for comp in Combiner(esf).collect() for k in comp])
+        except Exception as e:
+            chk.extra.setdefault("search_exceptions", {})
+            k = f"pos:{type(e).__name__}:{str(e)[:80]}"
+            chk.extra["search_exceptions"][k] = chk.extra["search_exceptions"].get(k, 0) + 1
+            continue
+        for (name, i), d in lists.items():
+            base = d[None]
+            ok = all([k for k, _ in d[qn]] == [k for k, _ in base] for qn in cards.QUARKS)
+            worst = 0.0
+            if ok:
+                for j, (kid, w) in enumerate(base):
+                    tot = [sum(d[qn][j][1][a] for qn in cards.QUARKS) for a in range(14)]
+                    worst = max(worst, max(abs(x - y) for x, y in zip(tot, w)) / max(1e-300, max(abs(v) for v in w) or 1.0))
+            sample = dict(obs=name, FNS=t["FNS"], NfFF=t["NfFF"], pto=t["PTODIS"], process=o["prDIS"], n_kernels=len(base), worst=worst)
+            chk.search_case("pos_charge_kernel_weights", ok and worst <= 1e-12, what=f"{name} {t['FNS']} pto={t['PTODIS']}: restricted kernel weights do not sum to the unrestricted ones", data=sample, sample=sample, nontrivial=len(base) > 0)
+
+
+def search_parts_kernels(chk, r, n):
+    """kernel-list level (no convolution): full = massless + massive, and total = light + massive
+    parts of c, b, t, as multisets of (channel id, weights) on the real Combiner, all orders"""
+    import collections
+
+    import yadism
+    from yadism.coefficient_functions import Combiner
+
+    def ms(esf):
+        c = collections.Counter()
+        for kid, w in corr_weights.canon_py_kernels(Combiner(esf).collect_elems()):
+            c[(kid, tuple(round(v, 12) for v in w))] += 1
+        return c
+
+    for t, o in corr_weights.combiner_configs(r, n):
+        name = next(iter(o["observables"]))
+        kind = name.split("_")[0]
+        kin = o["observables"][name][:1]
+        try:
+            lists = {}
+            for parts in ("full", "massless", "massive"):
+                names = [f"{kind}_{f}" for f in ("total", "light", "charm", "bottom", "top")]
+                runner = yadism.Runner(dict(t, FONLLParts=parts), dict(o, observables={n_: kin for n_ in names}))
+                lists[parts] = {n_: ms(runner.observables[n_].elements[0]) for n_ in names}
+        except Exception as e:
+            chk.extra.setdefault("search_exceptions", {})
+            k = f"parts:{type(e).__name__}:{str(e)[:80]}"
+            chk.extra["search_exceptions"][k] = chk.extra["search_exceptions"].get(k, 0) + 1
+            continue
+        base = dict(kind=kind, FNS=t["FNS"], NfFF=t["NfFF"], pto=t["PTODIS"], process=o["prDIS"], Q2=kin[0]["Q2"])
+        for n_ in lists["full"]:
+            ok = lists["full"][n_] == lists["massless"][n_] + lists["massive"][n_]
+            chk.search_case("parts_kernel_lists", ok, what=f"{n_} {t['FNS']} pto={t['PTODIS']}: kernels(full) != kernels(massless)+kernels(massive)", data=dict(base, obs=n_), sample=dict(base, obs=n_, n=sum(lists["full"][n_].values())), nontrivial=sum(lists["full"][n_].values()) > 0)
+        tot = lists["full"][f"{kind}_total"]
+        rhs = lists["full"][f"{kind}_light"] + lists["massive"][f"{kind}_charm"] + lists["massive"][f"{kind}_bottom"] + lists["massive"][f"{kind}_top"]
+        chk.search_case("total_kernel_lists", tot == rhs, what=f"{kind} {t['FNS']} pto={t['PTODIS']}: kernels(total) != kernels(light)+massive kernels of c,b,t", data=base, sample=base, nontrivial=sum(tot.values()) > 0)
+
+
 def run(tier):
     chk = common.Check("C07", tier)
     thorough = tier == "thorough"
     common.lean_proof_step(chk, "YadismModel.Properties.C07", thorough=thorough)
     r = common.rng("C07")
-    corr_weights.run_combiner(chk, 400 if thorough else 40, r)
-    corr_weights.run_weights(chk, 500 if thorough else 60, r)
+    # the theorems are list equalities for arbitrary weight functions: the tie they need is *which*
+    # kernels the Combiner builds (ids); weight values are C02's business
+    corr_weights.run_combiner(chk, 400 if thorough else 40, r, mode="ids")
+    search_pos_kernels(chk, r, 60 if thorough else 8)
+    search_parts_kernels(chk, r, 200 if thorough else 30)
     search(chk, r, 120 if thorough else 14, 2 if thorough else 1)
     chk.assumptions += [
         "operator entries are linear in the kernel list: `conv` (coefficient function x basis function, quadrature, scale-variation matrices) is an arbitrary parameter of the theorems",
